@@ -31,7 +31,7 @@ func init() {
 		NotDecided: "wall-clock promptness; which detector fires first; that the survivors hold the data.",
 	}
 	registry["C06"] = &propSpec{
-		Rules: []ruleFn{ruleC06Hole, ruleC06Snapstep, ruleC01Head, ruleC11Sync, ruleC06RevertCtl},
+		Rules: []ruleFn{ruleC06Hole, ruleC06Snapstep, ruleC01Head, ruleC11Sync, ruleC06RevertCtl, ruleC12Rollback},
 		Explanation: "Decides that every hole-punch request targets the file whose index the dominating strict guard compared with the latest user-created snapshot index (guard/use consistency via files[G] or paired phis), that UserCreatedSnap changes in lock-step with the file list and SnapIndx is set only under the user-created flag, that the hole queue is drained before files are unlinked or closed, that only fullWriteAt writes chain files (and only the head), and that revert creates the new head on the requested snapshot, commits volume.meta before removing the old head and reloads with preload.",
 		NotDecided: "that the snapshot image equals the volume at the instant it was taken; byte identity after preload/reopen; what FIEMAP reports.",
 	}
@@ -61,7 +61,7 @@ func init() {
 		NotDecided: "that the external merge (sfold) preserves content.",
 	}
 	registry["C12"] = &propSpec{
-		Rules: []ruleFn{ruleC12, ruleC12Chain, ruleC12Publish, ruleC08Commit, ruleC11Refuse("C12-REFUSE")},
+		Rules: []ruleFn{ruleC12, ruleC12Chain, ruleC12Rollback, ruleC12Publish, ruleC08Commit, ruleC11Refuse("C12-REFUSE")},
 		Explanation: "Decides that every change of a persisted attribute is written to its metadata file on all success paths (or published only after the write), that request-supplied disk names are validated before any file operation, that open accepts every chain length create can produce, the commit order of createDisk, and (C12-PUBLISH) that createDisk / markDiskAsRemoved do not return an error after the in-memory chain was modified - the latter is violated today and recorded as a known finding.",
 		NotDecided: "acyclicity/shape of the chain as a run-time graph; equality of the reopened chain with the previous one.",
 	}
